@@ -96,15 +96,19 @@ def family_free(f, docs=1, width=3, depth=2, pool=2):
     return out
 
 # ---------------------------------------------------------------------------------------------- trees with symbolic names for C14 / C04
-def family_names(f, shape='chain', names=('a', 'b'), anames=None, docs=1):
+def family_names(f, shape='chain', names=('a', 'b'), anames=None, docs=1, text_siblings=False):
     """skeletons whose *names* are the subject: every element name symbolic over `names`.
        shape 'three_branches': r > (N1 > N4), (N2 > (N5, N3 > N6)) ; 'two_parents': r > (N1 > N3, N2 > N4), N5 ; 'deep': r > N1 > N2 > N3 and r > N4 ; 'wide': r > N1, N2, N3 (each with one optional attribute)"""
     out = []
     for d in range(docs):
         t = 'd%d_' % d
-        def el(lab, kids=(), attrs=0, present=True, text=False):
-            n = Node(f.S(t + lab + '_n', list(names)), present=present, empty=False, attrs=f.attrs(t + lab, attrs, list(anames or names)), label=t + lab)
+        def el(lab, kids=(), attrs=0, present=True, text=False, fixed=None):
+            n = Node(fixed if fixed is not None else f.S(t + lab + '_n', list(names)), present=present, empty=False, attrs=f.attrs(t + lab, attrs, list(anames or names)), label=t + lab)
             n.content = list(kids)
+            if text_siblings and kids:
+                # an optional text-only sibling (rendered as a String field, no struct) in front of the other children
+                ts = Node('t', present=f.B(t + lab + '_ts_p'), empty=False, label=t + lab + '_ts'); ts.content = [Text(True, False, 't', t + lab + '_ts_t')]
+                n.content.insert(0, ts)
             if text: n.content.append(Text(True, False, 't', t + lab + '_t'))
             return n
         root = Node('r', label=t + 'r', empty=False)
@@ -118,6 +122,8 @@ def family_names(f, shape='chain', names=('a', 'b'), anames=None, docs=1):
             root.content = [el('n1', [el('n2', [el('n3')])])]
         elif shape == 'attrs':
             root.content = [el('n1', [el('n2')], attrs=2, text=True)]
+        elif shape == 'deep_pair':
+            root.content = [el('n1', [el('n3', [el('n5')])], fixed='a'), el('n2', [el('n4', [el('n6')])], fixed='b')]
         elif shape == 'three_branches':
             root.content = [el('n1', [el('n4')]), el('n2', [el('n5'), el('n3', [el('n6')])])]
         elif shape == 'single':
